@@ -762,6 +762,11 @@ def run(U, rep, tier):
   # trigonometric site reachable from the native pipelines is unguarded (the site classification of C03 R3.1-R3.3)
   from braxlint.props import c03
   c03.r3_sites(U, _Relabel(rep, 'R16.9'), tier)
+  # R16.10: environments are observed THROUGH training.wrap: the wrappers keep `done` a 0/1 flag and restore states by
+  # selection (a blend with a done count of 2 leaves link rotations non-unit) -- the per-step laws of C15 R15.1 / R15.2
+  from braxlint.props import c15
+  c15.episode_wrapper(U, _Relabel(rep, 'R16.10'), tier)
+  c15.autoreset_wrapper(U, _Relabel(rep, 'R16.10'), tier)
   envs = physics_envs(U)
   if len(envs) < 11:
     raise AnalysisError('registry lists only %d physics environments (floor 11)' % len(envs))
